@@ -29,6 +29,12 @@ Theorem C19_sspor_wrong_arrays_rejected : forall nsens nf x,
 Proof. intros. split; [apply sspor_consumers_reject|apply sspor_score_rejects]. Qed.
 Print Assumptions C19_sspor_wrong_arrays_rejected.
 
+(* ... and arrays that are neither 1-D nor 2-D (a 0-d array, a 3-D stack) are no measurement arrays at all *)
+Theorem C19_sspor_wrong_rank_rejected : forall n nf, g_sspor_predict true n BadRank = Err ValueError /\
+  g_sspor_score true nf BadRank = Err ValueError /\ g_sspor_recon_error true nf BadRank = Err ValueError.
+Proof. exact bad_rank_rejected. Qed.
+Print Assumptions C19_sspor_wrong_rank_rejected.
+
 Theorem C19_sspor_count_too_large_at_fit : forall n nf, nf < n -> g_sspor_fit_count n nf = Err ValueError.
 Proof. exact sspor_fit_count_rejects. Qed.
 Print Assumptions C19_sspor_count_too_large_at_fit.
